@@ -263,7 +263,7 @@ def _shard(arg):
             cl.append("merged_in_sketch_in_shared_memory")
         rec.case(case, stats["views"] >= 1 and stats["ops_via_view"] >= 1 and (ua or case["cfg"]["kind"] == "hll"), cl)
 
-    common.run_given(test, common.derive_seed(seed, "C16", shard), n_examples, holder, rec)
+    common.run_given(test, common.derive_seed(seed, "C16", shard), n_examples, holder, rec, retry=run_case)
     return rec
 
 
